@@ -955,6 +955,184 @@ def _shift_block(b, loff, boff, ret_local, call_dst, call_target, call_sp, ghost
     return nb
 
 
+def _scalar_replace(prog, fn, blocks, locals_, names):
+    """Scalar replacement of a local state struct on the spliced view. A local of a private struct type of the crate that is only
+    built, accessed field by field, borrowed for methods that were spliced in (`step.apply_buy(..)`), or moved as a whole into another
+    such local, is replaced by one variable per field, named `<var>.<field>` and marked as a user variable — so that rules which
+    speak about "the variable holding the new cost base" see one again when the working values were regrouped into a struct."""
+    adts = prog.adts(fn.crate)
+    ty_of = {l['i']: l['ty'] for l in locals_}
+    argc = fn.argc
+    def struct_fields(ty):
+        a = adts.get(ty)
+        if not a or a.get('kind') != 'Struct' or len(a['variants']) != 1:
+            return None
+        return [(f['name'], f['ty']) for f in a['variants'][0]['fields']]
+    cands = {i for i, t in ty_of.items() if i > argc and i != 0 and struct_fields(t) and not adts[t].get('pub')}
+    if not cands:
+        return blocks, locals_, names
+    # collect uses
+    def places_of_stmt(st):
+        out = [('dst', st['dst'])]
+        r = st['r']
+        for o in r.get('ops', []):
+            if isinstance(o, dict) and 'pl' in o:
+                out.append(('op', o['pl']))
+        if 'pl' in r:
+            out.append(('rpl', r['pl']))
+        return out
+    ptr_of = {}          # pointer local -> struct local (p = &mut S)
+    alias = {}           # whole-value copies: x -> S
+    changed = True
+    bad = set()
+    def root(x):
+        while x in alias:
+            x = alias[x]
+        return x
+    # pass 1: pointers and aliases (iterate to a fixpoint over simple copies)
+    for _ in range(6):
+        for b in blocks:
+            for st in b['stmts']:
+                r = st['r']
+                d = st['dst']
+                if d['p']:
+                    continue
+                if r['rv'] == 'ref' and not r['pl']['p'] and root(r['pl']['l']) in cands:
+                    ptr_of[d['l']] = root(r['pl']['l'])
+                elif r['rv'] == 'ref' and r['pl']['p'] == ['*'] and r['pl']['l'] in ptr_of:
+                    ptr_of[d['l']] = ptr_of[r['pl']['l']]
+                elif r['rv'] == 'use' and r['ops'] and isinstance(r['ops'][0], dict) and 'pl' in r['ops'][0] and not r['ops'][0]['pl']['p']:
+                    src = r['ops'][0]['pl']['l']
+                    if src in ptr_of:
+                        ptr_of[d['l']] = ptr_of[src]
+                    elif root(src) in cands and ty_of.get(d['l']) == ty_of.get(root(src)) and d['l'] != root(src) and d['l'] > argc and d['l'] != 0:
+                        alias[d['l']] = root(src)
+    members = {}         # struct local -> set of locals that stand for it (itself, aliases)
+    for x in list(alias):
+        members.setdefault(root(x), set()).add(x)
+    for c in cands:
+        if c not in alias:
+            members.setdefault(c, set()).add(c)
+    owner = {x: c for c, xs in members.items() for x in xs}
+    # pass 2: every use must be of an accepted form
+    def first_field(p):
+        return p and isinstance(p[0], dict) and 'f' in p[0]
+    for b in blocks:
+        for st in b['stmts']:
+            r = st['r']
+            for kind, pl in places_of_stmt(st):
+                l = pl['l']
+                if l in owner:
+                    c = owner[l]
+                    if not pl['p']:
+                        whole_ok = (kind == 'dst' and (r['rv'] == 'agg' and r['kind'].startswith('adt:' + ty_of[c]) or
+                                                       (r['rv'] == 'use' and r['ops'] and isinstance(r['ops'][0], dict) and 'pl' in r['ops'][0] and
+                                                        not r['ops'][0]['pl']['p'] and r['ops'][0]['pl']['l'] in owner))) or \
+                                   (kind == 'op' and r['rv'] == 'use' and not st['dst']['p'] and st['dst']['l'] in owner) or \
+                                   (kind == 'rpl' and r['rv'] == 'ref')
+                        if not whole_ok:
+                            bad.add(c)
+                    elif not first_field(pl['p']):
+                        bad.add(c)
+                elif l in ptr_of:
+                    c = ptr_of[l]
+                    if not pl['p']:
+                        ok_ptr = (kind == 'dst') or (kind == 'op' and r['rv'] == 'use' and not st['dst']['p'] and st['dst']['l'] in ptr_of)
+                        if not ok_ptr:
+                            bad.add(c)
+                    elif not (pl['p'][0] == '*' and (len(pl['p']) == 1 and kind == 'rpl' and r['rv'] == 'ref' or (len(pl['p']) > 1 and first_field(pl['p'][1:])))):
+                        bad.add(c)
+        t = b['term']
+        if t:
+            ops = []
+            if t['t'] == 'call':
+                ops = [a['pl'] for a in t['args'] if isinstance(a, dict) and 'pl' in a] + [t['dst']]
+            elif t['t'] == 'switch' and isinstance(t['discr'], dict) and 'pl' in t['discr']:
+                ops = [t['discr']['pl']]
+            for pl in ops:
+                l = pl['l']
+                if l in owner and not (pl['p'] and first_field(pl['p'])):
+                    bad.add(owner[l])
+                if l in ptr_of and not (len(pl['p']) > 1 and pl['p'][0] == '*' and first_field(pl['p'][1:])):
+                    bad.add(ptr_of[l])
+    good = {c for c in members if c not in bad}
+    if not good:
+        return blocks, locals_, names
+    # new locals
+    next_local = max(l['i'] for l in locals_) + 1
+    var_name = {}
+    for k, v in names.items():
+        if not v['p']:
+            var_name.setdefault(v['l'], k.rsplit('#', 1)[0])
+    fld = {}
+    new_locals = list(locals_)
+    new_names = dict(names)
+    for c in sorted(good):
+        named = sorted((x for x in members[c] if x in var_name), key=lambda x: ('.' in var_name[x], x))
+        base = var_name.get(c) or (var_name[named[0]] if named else 'state')
+        for (fname, fty) in struct_fields(ty_of[c]):
+            fld[(c, fname)] = next_local
+            new_locals.append({'i': next_local, 'ty': fty, 'user': True})
+            new_names['%s.%s#%d' % (base, fname, next_local)] = {'l': next_local, 'p': []}
+            next_local += 1
+    def rw_place(pl):
+        l, p = pl['l'], pl['p']
+        if l in owner and owner[l] in good and p and first_field(p):
+            q = dict(pl)
+            q['l'] = fld[(owner[l], p[0]['f'])]
+            q['p'] = p[1:]
+            return q
+        if l in ptr_of and ptr_of[l] in good and len(p) > 1 and p[0] == '*' and first_field(p[1:]):
+            q = dict(pl)
+            q['l'] = fld[(ptr_of[l], p[1]['f'])]
+            q['p'] = p[2:]
+            return q
+        return pl
+    def rw_op(o):
+        if isinstance(o, dict) and 'pl' in o:
+            q = dict(o)
+            q['pl'] = rw_place(o['pl'])
+            return q
+        return o
+    out_blocks = []
+    for b in blocks:
+        nb = dict(b)
+        nst = []
+        for st in b['stmts']:
+            r, d = st['r'], st['dst']
+            # whole-struct initialisation: one assignment per field
+            if not d['p'] and d['l'] in owner and owner[d['l']] in good and r['rv'] == 'agg' and r['kind'].startswith('adt:' + ty_of[owner[d['l']]]):
+                for fname, o in zip(r.get('fields', []), r['ops']):
+                    if (owner[d['l']], fname) in fld:
+                        nst.append({'dst': {'l': fld[(owner[d['l']], fname)], 'p': []}, 'r': {'rv': 'use', 'ops': [rw_op(o)]}, 'sp': st['sp']})
+                continue
+            # whole moves between the locals standing for one struct, and `p = &mut S`: nothing left to do
+            if not d['p'] and ((d['l'] in owner and owner[d['l']] in good) or (d['l'] in ptr_of and ptr_of[d['l']] in good)) and r['rv'] in ('use', 'ref'):
+                continue
+            q = dict(st)
+            q['dst'] = rw_place(d)
+            rr = dict(r)
+            if 'ops' in r:
+                rr['ops'] = [rw_op(o) for o in r['ops']]
+            if 'pl' in r:
+                rr['pl'] = rw_place(r['pl'])
+            q['r'] = rr
+            nst.append(q)
+        nb['stmts'] = nst
+        t = b['term']
+        if t and t['t'] == 'call':
+            nt = dict(t)
+            nt['args'] = [rw_op(a) for a in t['args']]
+            nt['dst'] = rw_place(t['dst'])
+            nb['term'] = nt
+        elif t and t['t'] == 'switch':
+            nt = dict(t)
+            nt['discr'] = rw_op(t['discr'])
+            nb['term'] = nt
+        out_blocks.append(nb)
+    return out_blocks, new_locals, new_names
+
+
 def inline_view(prog, fn, should_inline=None, max_depth=3, max_blocks=6000):
     """A Fn object with the same name as `fn` whose body contains the bodies of the crate-local functions it calls
     (recursively, up to max_depth), parameters bound by copies and `return` turned into an assignment to the call's destination.
@@ -1021,6 +1199,12 @@ def inline_view(prog, fn, should_inline=None, max_depth=3, max_blocks=6000):
         inlined_fns.append(g)
         for nb in new_blocks:
             work.append((nb, stack + (g.name,), depth + 1, next_self))
+    if inlined and os.environ.get('VERIF_NO_SROA') != '1':
+        try:
+            blocks, locals_, names = _scalar_replace(prog, fn, blocks, locals_, names)
+        except Exception as e:        # the pass is an optional refinement of the view: never the reason a check cannot complete
+            if os.environ.get('VERIF_DEBUG_SROA'):
+                raise
     nd = dict(d, blocks=blocks, locals=locals_, names=names)
     view = Fn(nd, fn.crate, fn.name)
     view.inlined = inlined
